@@ -32,7 +32,7 @@ Variable en : env.
 
 Fixpoint safe (e : expr) : bool :=
   match e with
-  | EAttr _ | EInt _ | EStr _ | EBool _ | ENone | EParam _ _ => true
+  | EAttr _ | EInt _ | EStr _ | EBool _ | ENone | EParam _ _ | ECol _ _ _ | ESub _ => true
   | EArith op a b =>
       safe a && safe b &&
       match int_of (reval true en a), int_of (reval true en b) with
